@@ -38,7 +38,8 @@ class Scheduler:
 
     def spawn(self, tid, fn):
         c = {"sem": threading.Semaphore(0), "state": "parked", "enabled": None, "desc": "start"}
-        self.ctl[tid] = c
+        with self.cv:
+            self.ctl[tid] = c
 
         def body():
             self.ident[threading.get_ident()] = tid
